@@ -584,42 +584,45 @@ class InterpModel:
                 continue
             xm = xa[mask]
             layer = np.abs(xm - edge) <= reach
-            # a table narrower than the stencil: the far stencil points are beyond the
-            # *other* end and follow the other side's mode -- not judged for value
-            cross = (xm + 2.0 * dx >= self.xmax) if name == "below" else \
-                (xm - 2.0 * dx <= self.xmin)
             lay = np.zeros(xa.shape, dtype=bool)
             lay[mask] = layer
             pr.layer |= lay
-            # bound on |s - f| and |s'| next to that edge (used only inside the layer)
-            # (the stencil can span several table intervals of very different length, so
-            # the bound is taken where the stencil points are, not at the edge)
-            if fn.has_bounds:
-                e0 = np.zeros(xm.shape + (R,))
-                e1 = np.zeros(xm.shape + (R,))
+            # Inside the layer a difference quotient over the function that evaluate()
+            # returns (mode g outside, spline s inside) is as admissible as the exact
+            # derivative of g.  The two differ by at most  S/dx^n * max |s - g|  over the
+            # stencil points that lie inside the table; that deviation is computed from the
+            # model's own spline, for this very stencil (factor 2 for the one-sided count).
+            j = 0 if name == "below" else len(self.xs) - 2
+            cj = spl.c[:, j]                      # end cubic, (4, R)
+            sedge = spl(edge)
+
+            def deviation(g):
+                dev = np.zeros(xm.shape + (R,))
                 for kk in (-2, -1, 1, 2):
-                    pos = np.clip(xm + kk * dx, self.xmin, self.xmax)
-                    e0 = np.maximum(e0, self.acc_bound(pos, 0))
-                    e1 = np.maximum(e1, self.acc_bound(pos, 1))
-                m1 = fn.bound(1)
-            else:
-                e0 = e1 = np.full(xm.shape + (R,), np.inf)
-                m1 = np.full(R, np.inf)
+                    pos = xm + kk * dx
+                    ins_ = ((pos >= self.xmin) & (pos <= self.xmax))[..., None]
+                    d_ = np.abs(spl(pos) - g(pos))
+                    dev = np.maximum(dev, np.where(ins_, d_, 0.0))
+                return dev
+
             if mode == "NONE":
                 if fn.has_bounds:
                     exp[mask] = fn.smooth(xm, order)
                 t = self._fd_tol(order, dx, xm)
-                t[layer] += S_FD[order] / dx ** order * e0[layer]
+                if np.any(layer):
+                    dev = deviation(lambda pos: fn.smooth(pos, 0)) if fn.has_bounds else \
+                        np.full(xm.shape + (R,), np.inf)
+                    t[layer] += 2.0 * S_FD[order] / dx ** order * dev[layer]
                 t[nearbad[mask]] = np.inf
                 tol[mask] = t
             elif mode == "CONSTANT":
-                c = np.abs(spl(edge))
+                c = np.abs(sedge)
                 exp[mask] = 0.0
                 t = np.broadcast_to(K_FD * S_FD[order] * 2.0 * EPS * (c + 1e-300)
                                     / dx ** order, xm.shape + (R,)).copy()
-                # finite difference across the kink at the edge: |s(pos) - s(edge)| <=
-                # (M1 + E1) * 2dx
-                t[layer] += S_FD[order] / dx ** order * (m1 + e1[layer]) * 2.0 * dx
+                if np.any(layer):
+                    dev = deviation(lambda pos: np.broadcast_to(sedge, pos.shape + (R,)))
+                    t[layer] += 2.0 * S_FD[order] / dx ** order * dev[layer]
                 tol[mask] = t
             else:  # FUNCTION: the extrapolant is the end cubic itself
                 e = dspl(xm)
@@ -630,21 +633,18 @@ class InterpModel:
                 t = K_FD * S_FD[order] * 2.0 * EPS * (sc + 1e-300) / dx ** order \
                     + 256.0 * EPS * np.abs(e)
                 if np.any(layer):
-                    # a difference stencil that reaches past the first knot inside the
-                    # table sees s, not the end cubic p: add S/dx^n * max|s - p|
-                    j = 0 if name == "below" else len(self.xs) - 2
                     x0 = self.xs[j]
-                    cj = spl.c[:, j]                     # (4, R)
-                    dev = np.zeros(xm.shape + (R,))
-                    for kk in (-2, -1, 1, 2):
-                        pos = xm + kk * dx
+
+                    def pend(pos):
                         z = (pos - x0)[..., None]
-                        pend = ((cj[0] * z + cj[1]) * z + cj[2]) * z + cj[3]
-                        inside = ((pos >= self.xmin) & (pos <= self.xmax))[..., None]
-                        dev = np.maximum(dev, np.where(inside, np.abs(spl(pos) - pend), 0.0))
-                    t[layer] += 2.0 * S_FD[order] / dx ** order * dev[layer]
+                        return ((cj[0] * z + cj[1]) * z + cj[2]) * z + cj[3]
+                    t[layer] += 2.0 * S_FD[order] / dx ** order * deviation(pend)[layer]
                 tol[mask] = t
-        for mask, mode, name in ((lo, self.lower, "below"), (hi, self.upper, "above")):
+        # a table narrower than the stencil: the far stencil points are beyond the *other*
+        # end and follow the other side's mode -- not judged for value
+        pr.may_raise = False
+        for mask, mode, name, other in ((lo, self.lower, "below", self.upper),
+                                        (hi, self.upper, "above", self.lower)):
             if np.any(mask) and mode != "ERROR":
                 xm = xa[mask]
                 cross = (xm + 2.0 * dx >= self.xmax) if name == "below" else \
@@ -652,6 +652,8 @@ class InterpModel:
                 t = tol[mask]
                 t[cross] = np.inf
                 tol[mask] = t
+                if np.any(cross) and other == "ERROR":
+                    pr.may_raise = True     # the far stencil points are on the ERROR side
         pr.expected, pr.tol = self._squeeze(exp), self._squeeze(tol)
         pr.truth, pr.acc = self._squeeze(truth), self._squeeze(acc)
         pr.kind = kind
